@@ -416,6 +416,12 @@ def known_match(k, case, impl, model):
         return False
     if k.get("impl_re") and not re.search(k["impl_re"], impl):
         return False
+    if k.get("model_re") and not re.search(k["model_re"], model):
+        return False
+    if k.get("pred"):
+        import known
+        if not known.PREDICATES[k["pred"]](case):
+            return False
     return True
 
 
